@@ -169,6 +169,7 @@ type World struct {
 	MaxInflight int
 	Concurrent  bool // requests are issued from several goroutines (C20)
 	server      *httptest.Server
+	smtpBase    int
 }
 
 var (
@@ -381,11 +382,12 @@ func NewWorld(cfg Config) (w *World, err error) {
 		w.MailBuf = &SyncBuffer{}
 		ab.Config.Core.Mailer = defaults.NewLogMailer(w.MailBuf)
 	case "smtp":
-		srv, err := NewFakeSMTP()
+		srv, err := SharedSMTP()
 		if err != nil {
 			return nil, err
 		}
 		w.SMTP = srv
+		w.smtpBase = len(srv.Snapshot())
 		ab.Config.Core.Mailer = defaults.NewSMTPMailer(srv.Addr(), nil)
 	}
 	ab.Config.Core.ErrorHandler = errWrap{write500: cfg.Err500, log: ab.Config.Core.Logger}
@@ -879,13 +881,9 @@ func (w *World) Advance(d time.Duration) {
 
 // Close releases the socket server, if one was started.
 func (w *World) Close() {
-	if w.SMTP != nil {
-		w.SMTP.Close()
-		w.SMTP = nil
-	}
-	if w.server != nil {
-		w.server.Close()
-		w.server = nil
+	w.SMTP = nil // the loopback SMTP server is shared by the whole process
+	if sockWorld == w {
+		sockWorld = nil
 	}
 }
 
@@ -906,3 +904,15 @@ var SortedModules = func() []string {
 }()
 
 var _ = abo2.FormValueOAuth2State
+
+// SMTPMessages returns the messages the shared loopback SMTP server received since this world was built.
+func (w *World) SMTPMessages() []string {
+	if w.SMTP == nil {
+		return nil
+	}
+	all := w.SMTP.Snapshot()
+	if w.smtpBase > len(all) {
+		return nil
+	}
+	return all[w.smtpBase:]
+}
